@@ -29,7 +29,7 @@
    implementation. *)
 From Coq Require Import List ZArith Bool Arith Lia.
 Import ListNotations.
-From QV Require Import Model.C01 Proofs.C01 Proofs.C01_pred Proofs.C01_add Proofs.C01_dia Proofs.C01_reshape Proofs.C01_kron Proofs.C01_matmul Proofs.C01_inner Proofs.C01_diacsr Proofs.C01_adddia.
+From QV Require Import Model.C01 Proofs.C01 Proofs.C01_pred Proofs.C01_add Proofs.C01_dia Proofs.C01_reshape Proofs.C01_kron Proofs.C01_matmul Proofs.C01_inner Proofs.C01_diacsr Proofs.C01_adddia Proofs.C01_matdia Proofs.C01_pow.
 
 Section Props.
 Variable C : Type.
@@ -686,6 +686,102 @@ Proof.
   split; [intros [a b] [c d] [e f]; unfold gmul; cbn [fst snd]; f_equal; lia|].
   vm_compute. reflexivity.
 Qed.
+
+(* ------------------------------------------- matmul with Dia operands *)
+Section MatmulDia.
+Variable C : Type.
+Variables (c0 : C) (cadd cmul : C -> C -> C).
+Hypothesis Hadd0r : forall x, cadd x c0 = x.
+Hypothesis Hadd0l : forall x, cadd c0 x = x.
+Hypothesis Haddc : forall x y, cadd x y = cadd y x.
+Hypothesis Hadda : forall x y z, cadd x (cadd y z) = cadd (cadd x y) z.
+Hypothesis Hmul0r : forall x, cmul x c0 = c0.
+Hypothesis Hmul0l : forall x, cmul c0 x = c0.
+
+(* matmul_dia_dense_dense: the walk over the stored diagonals (any order,
+   partly outside a rectangular matrix, anything in the outside slots) gives
+   out + scale * (left @ right), result in the order of `out` / of `right` *)
+Theorem C01_matmul_dia_dense : forall (l : dia C) (r : dense C) scale out res i k,
+  NoDup (map fst (a_diags C l)) ->
+  matmul_dia_dense C c0 cadd cmul l r scale out = Some res ->
+  i < a_nr C l -> k < d_nc C r ->
+  den_dense C c0 res i k =
+  cadd (match out with Some o => den_dense C c0 o i k | None => c0 end)
+       (cmul scale (diag_sum C c0 cadd
+          (fun j => cmul (den_dia C c0 l i j) (den_dense C c0 r j k)) 0 (a_nc C l))).
+Proof. exact (matmul_dia_dense_den C c0 cadd cmul Hadd0r Hadd0l Haddc Hadda Hmul0l). Qed.
+
+(* matmul_dense_dia_dense: out + scale * (left @ right), the products written
+   in the kernel's order right.data * left *)
+Theorem C01_matmul_dense_dia : forall (l : dense C) (r : dia C) scale out res i k,
+  NoDup (map fst (a_diags C r)) ->
+  matmul_dense_dia C c0 cadd cmul l r scale out = Some res ->
+  i < d_nr C l -> k < a_nc C r ->
+  den_dense C c0 res i k =
+  cadd (match out with Some o => den_dense C c0 o i k | None => c0 end)
+       (cmul scale (diag_sum C c0 cadd
+          (fun j => cmul (den_dia C c0 r j k) (den_dense C c0 l i j)) 0 (a_nr C r))).
+Proof. exact (matmul_dense_dia_den C c0 cadd cmul Hadd0r Hadd0l Haddc Hadda Hmul0l). Qed.
+
+(* matmul_dia (Dia x Dia): the offsets of the result, the lower_bound index
+   and the three max / min bounds of the column range are right: entry (i, k)
+   is sum_j (scale * left[i,j]) * right[j,k] *)
+Theorem C01_matmul_dia : forall (l r out : dia C) scale i k,
+  NoDup (map fst (a_diags C l)) -> NoDup (map fst (a_diags C r)) ->
+  matmul_dia C c0 cadd cmul l r scale = Some out ->
+  i < a_nr C l -> k < a_nc C r ->
+  den_dia C c0 out i k =
+  diag_sum C c0 cadd (fun j => cmul (cmul scale (den_dia C c0 l i j)) (den_dia C c0 r j k))
+           0 (a_nc C l).
+Proof. exact (matmul_dia_den C c0 cadd cmul Hadd0r Hadd0l Haddc Hadda Hmul0r Hmul0l). Qed.
+
+Theorem C01_matmul_dia_shape_guard : forall (l r : dia C) scale,
+  a_nc C l <> a_nr C r -> matmul_dia C c0 cadd cmul l r scale = None.
+Proof. exact (matmul_dia_guard C c0 cadd cmul). Qed.
+End MatmulDia.
+Print Assumptions C01_matmul_dia_dense.
+Print Assumptions C01_matmul_dense_dia.
+Print Assumptions C01_matmul_dia.
+Print Assumptions C01_matmul_dia_shape_guard.
+
+(* non-vacuity: rectangular operands, unsorted offsets, a diagonal partly
+   outside with garbage in the outside slot *)
+Example C01_nonvacuous_matmul_dia :
+  let l := mkA 2 3 [(1, [(9, 9); (2, 0); (3, 0)]); (0, [(1, 0); (4, 0); (7, 7)])]%Z in
+  let r := mkA 3 2 [(-1, [(5, 0); (6, 0)]); (0, [(1, 0); (0, 1)])]%Z in
+  NoDup (map fst (a_diags G l)) /\ NoDup (map fst (a_diags G r)) /\
+  vO vA (G_matmul_dia l r (1, 0)%Z) =
+    Some (2, 2, [(-1, [(20, 0); (0, 0)]); (0, [(11, 0); (18, 4)]); (1, [(0, 0); (0, 2)])]%Z) /\
+  vO vD (G_matmul_dia_dense l (mkD 3 1 false [(1, 0); (1, 0); (1, 0)]%Z) (1, 0)%Z None) =
+    Some (2, 1, false, [(3, 0); (7, 0)]%Z).
+Proof.
+  split; [repeat constructor; simpl; intuition lia|].
+  split; [repeat constructor; simpl; intuition lia|].
+  vm_compute. split; reflexivity.
+Qed.
+
+(* ------------------------------------------------------------------ pow *)
+(* The square-and-multiply loop shared by pow_csr, pow_dia and pow_dense
+   (tied to pow_csr by raw-array correspondence with M := CSR, mul :=
+   matmul_csr): for any associative multiplication with a unit it returns the
+   n-fold product, for every n - so the three formats compute the same power
+   of the same matrix product. *)
+Theorem C01_pow_loop : forall (M : Type) (mul : M -> M -> M) (one : M),
+  (forall a b c, mul a (mul b c) = mul (mul a b) c) ->
+  (forall a, mul one a = a) -> (forall a, mul a one = a) ->
+  forall x n, pow_model M mul one x n = xpow M mul one x n.
+Proof. exact pow_model_correct. Qed.
+Print Assumptions C01_pow_loop.
+
+(* non-vacuity: the integers under multiplication, 3^13; and the loop run on
+   CSR matrices through the modelled matmul kernel *)
+Example C01_nonvacuous_pow :
+  pow_model Z Z.mul 1%Z 3%Z 13 = (3 ^ 13)%Z /\
+  let m := G_csr_of_raw 2 2 [0; 2; 3] [1; 0; 1] [(1, 0); (1, 0); (0, 1)]%Z in
+  (* m = [[1, 1], [0, i]]: m^5 = [[1, 1 + i + i^2 + i^3 + i^4], [0, i^5]] *)
+  vO (fun c => (G_den_csr c 0 0, G_den_csr c 0 1, G_den_csr c 1 0, G_den_csr c 1 1))
+     (G_pow_csr m 5) = Some ((1, 0), (1, 0), (0, 0), (0, 1))%Z.
+Proof. split; vm_compute; reflexivity. Qed.
 
 (* ------------------------------------------------------ inner / expect *)
 Section InnerExpect.
